@@ -16,7 +16,7 @@ EPS = 2.0 ** -24
 
 
 def generate(rng, tier):
-    n_cases = 170 if tier == "quick" else 2500
+    n_cases = 170 if tier == "quick" else 800
     cases = [
         # the D7 witness shape: 3 chains x 4 parameters
         {"op": "tracker", "ty": "f32", "e": 0,
@@ -33,8 +33,8 @@ def generate(rng, tier):
         elif r < 0.9:
             n = rng.randint(41, 200)
         else:
-            n = rng.randint(201, 600 if tier == "quick" else 5000)
-        cap = 6000 if tier == "quick" else 20000
+            n = rng.randint(201, 600 if tier == "quick" else 3000)
+        cap = 6000 if tier == "quick" else 10000
         if m * p * n > cap:
             n = max(2, cap // (m * p))
         e = 0 if ty in ("i32", "u64") else rng.choice([-4, -2, 0, 0, 1, -16, -24])   # incl. very small scales
